@@ -7,7 +7,7 @@ CONSTANTS
   WithEmpty = FALSE
   DevNoDedup = FALSE
   DevSharedPrefix = FALSE
-  DevStreamInsert = FALSE
+  DevStreamInsert = TRUE
   N = 0
-INVARIANTS WellFormed LawProject LawWhere LawSets LawJoin LawSummarize LawRenameExtend LawIndexSpans LawInsertQuery
+INVARIANTS LawInsertQuery
 CHECK_DEADLOCK FALSE
